@@ -44,12 +44,26 @@ def _trace(trace_path, idx, sketches=()):
             os.close(fd)
 
 
-def process_item(item, *sketches, trace_path=None, die_on_kth=None, die_flag=None, delay=None, **kwargs):
+def process_item(item, *sketches, trace_path=None, die_on_kth=None, die_flag=None, delay=None, slow_worker0=None, die_signal=False, **kwargs):
     """The callback handed to parallel_add / _worker by the C08 and C19 checks.
     delay (real runs only): seconds to sleep per item, so that a worker that comes up first does not
     drain the queue before the others have finished importing the package."""
+    if not isinstance(item, tuple):
+        # a queue item may be any picklable object, including falsy ones (shard id 0, b"", ""): the harness
+        # sends such an object for some items and passes the table that maps it to the item tuple
+        item = kwargs["item_table"][item]
     idx, adds, ret, mode, cut = item
     _calls_in_this_process[0] += 1
+    if slow_worker0 and _calls_in_this_process[0] == 1:
+        # real runs: one chosen worker (by creation index; the spawn context names parallel_add's processes
+        # SpawnProcess-1 (log), -2 (fill), -3 (worker 0), -4 (worker 1), ...) is slow on its first item, so that
+        # workers created after it finish - and the merging could start - while it is still busy
+        import multiprocessing
+        import time
+        w_idx, secs = slow_worker0
+        nm = multiprocessing.current_process().name
+        if nm.rsplit("-", 1)[-1] == str(3 + int(w_idx)):
+            time.sleep(secs)
     _trace(trace_path, idx, sketches)
     if delay:
         import time
@@ -60,13 +74,25 @@ def process_item(item, *sketches, trace_path=None, die_on_kth=None, die_flag=Non
             fd = os.open(die_flag, os.O_WRONLY | os.O_CREAT | os.O_EXCL, 0o644)
             os.write(fd, ("%d %d\n" % (os.getpid(), idx)).encode())
             os.close(fd)
+            if die_signal:
+                import signal
+                os.kill(os.getpid(), signal.SIGKILL)      # what the OOM killer does: negative exit code
+                time_mod = __import__("time")
+                time_mod.sleep(60)
             os._exit(3)
         except FileExistsError:
             pass
     if mode == "before":
+        # exceptions of different shapes, incl. ones without arguments (bare assert, KeyError())
+        if idx % 3 == 1:
+            raise AssertionError()
+        if idx % 3 == 2:
+            raise KeyError()
         raise RuntimeError("injected fault before item %d" % idx)
     if mode == "after":
         apply_adds(sketches, adds[:cut])
+        if idx % 3 == 1:
+            raise IndexError()
         raise RuntimeError("injected fault inside item %d after %d adds" % (idx, cut))
     if mode == "die":
         import syncctx
